@@ -218,6 +218,36 @@ def build_ctokenizer(tag="ctok", sanitize=False):
     return so, log
 
 
+def build_tbshim(sanitize=False):
+    """Compile tools/tbshim.c together with /repo's textbuffer.c into .build/tbshim[_asan]/; returns (.so path | None, log)."""
+    out = os.path.join(BUILD, "tbshim_asan" if sanitize else "tbshim")
+    os.makedirs(out, exist_ok=True)
+    cdir = os.path.join(SRC, "mwparserfromhell", "parser", "ctokenizer")
+    srcs = [os.path.join(VERIF, "tools", "tbshim.c"), os.path.join(cdir, "textbuffer.c")]
+    deps = srcs + [os.path.join(cdir, "textbuffer.h"), os.path.join(cdir, "common.h")]
+    h = hashlib.sha1()
+    for f in deps:
+        h.update(open(f, "rb").read())
+    so = os.path.join(out, "tbshim_%s.so" % h.hexdigest()[:12])
+    if os.path.exists(so):
+        return so, ""
+    inc = subprocess.run([PY, "-c", "import sysconfig;print(sysconfig.get_paths()['include'])"],
+                         stdout=subprocess.PIPE, text=True).stdout.strip()
+    flags = ["-O1", "-g", "-fPIC", "-shared", "-I" + inc, "-I" + cdir]
+    if sanitize:
+        flags += ["-fsanitize=address,undefined", "-fno-omit-frame-pointer"]
+    with _Lock("tbshim"):
+        if os.path.exists(so):
+            return so, ""
+        for old in os.listdir(out):
+            if old.endswith(".so"):
+                os.unlink(os.path.join(out, old))
+        rc, log = sh(["gcc"] + flags + srcs + ["-o", so], timeout=600)
+    if rc != 0:
+        return None, log
+    return so, log
+
+
 def load_ctokenizer(so):
     """Load the scratch-built extension under the package name so that
     mwparserfromhell.parser picks it up; returns the CTokenizer class."""
